@@ -63,9 +63,13 @@ fn flip(h: &Byte32) -> Byte32 {
     Byte32::from_slice(&v).unwrap()
 }
 
-fn build_contexts(ctx: &Ctx, cons: &Consensus) -> Result<Vec<Context>, String> {
+/// `shift` empty blocks precede the designed chain: the candidate of the first context stands at
+/// height 6 + shift, i.e. at every position of an epoch (shift 2: it opens one); validity labels that
+/// depend on the position (which sibling blocks are uncles of the candidate's epoch) follow the rule.
+/// The other contexts are built for shift 0 only.
+fn build_contexts(ctx: &Ctx, cons: &Consensus, shift: usize) -> Result<Vec<Context>, String> {
     set_time(time_for_height(NOW_HEIGHT));
-    let mut forge = Forge::new(&ctx.scratch.join("c03-forge"), cons)?;
+    let mut forge = Forge::new(&ctx.scratch.join(format!("c03-forge-{shift}")), cons)?;
     let g = genesis_cells(cons);
     let t_old = simple_tx(cons, &g[0..1], 1, 1_000_000, 1);
     let t_far = simple_tx(cons, &g[1..2], 1, 1_000_000, 2);
@@ -76,8 +80,14 @@ fn build_contexts(ctx: &Ctx, cons: &Consensus) -> Result<Vec<Context>, String> {
     let t_far2 = simple_tx(cons, &g[1..2], 1, 1_500_000, 6);
     let id = |t: &TransactionView| t.proposal_short_id();
     let genesis = cons.genesis_hash();
-    let mut p: Vec<BlockView> = vec![];
+    let mut lead: Vec<BlockView> = vec![];
     let mut parent = genesis.clone();
+    for _ in 0..shift {
+        let b = forge.build_on(&parent, &BlockSpec { miner: 1, ..Default::default() })?;
+        parent = b.hash();
+        lead.push(b);
+    }
+    let mut p: Vec<BlockView> = vec![];
     for n in 1..=7u64 {
         let mut spec = BlockSpec { miner: 1, ..Default::default() };
         match n {
@@ -107,6 +117,8 @@ fn build_contexts(ctx: &Ctx, cons: &Consensus) -> Result<Vec<Context>, String> {
         let mut cands: Vec<Cand> = vec![];
         let mut add = |name: &str, block: BlockView, valid: bool| cands.push(Cand { name: name.to_string(), block, valid });
         let good = forge.build_on(&tip.hash(), &BlockSpec { miner: 2, ..Default::default() })?;
+        let (e_num, e_idx, e_len) = (good.epoch().number(), good.epoch().index(), good.epoch().length());
+        let n_cand = good.number();
         let good_tx = forge.build_on(&tip.hash(), &BlockSpec { miner: 2, txs: vec![t_far.clone()], ..Default::default() })?;
         add("empty", good.clone(), true);
         // --- commit window
@@ -121,13 +133,13 @@ fn build_contexts(ctx: &Ctx, cons: &Consensus) -> Result<Vec<Context>, String> {
         add("commit/double-spend-in-block", good_tx.as_advanced_builder().transaction(t_far2.clone()).build(), false);
         add("commit/duplicate-tx", good_tx.as_advanced_builder().transaction(t_far.clone()).build(), false);
         // --- header
-        add("header/number+1", good.as_advanced_builder().number(7u64).build(), false);
-        add("header/number-same-as-parent", good.as_advanced_builder().number(5u64).build(), false);
-        add("header/epoch-index+1", good.as_advanced_builder().epoch(EpochNumberWithFraction::new(1, 3, 4)).build(), false);
-        add("header/epoch-index-same", good.as_advanced_builder().epoch(EpochNumberWithFraction::new(1, 1, 4)).build(), false);
-        add("header/epoch-length", good.as_advanced_builder().epoch(EpochNumberWithFraction::new(1, 2, 5)).build(), false);
-        add("header/epoch-number", good.as_advanced_builder().epoch(EpochNumberWithFraction::new(2, 0, 4)).build(), false);
-        add("header/epoch-malformed", good.as_advanced_builder().epoch(EpochNumberWithFraction::new_unchecked(1, 4, 4)).build(), false);
+        add("header/number+1", good.as_advanced_builder().number(n_cand + 1).build(), false);
+        add("header/number-same-as-parent", good.as_advanced_builder().number(n_cand - 1).build(), false);
+        add("header/epoch-index+1", good.as_advanced_builder().epoch(EpochNumberWithFraction::new_unchecked(e_num, e_idx + 1, e_len)).build(), false);
+        add("header/epoch-index-same", good.as_advanced_builder().epoch(tip.epoch()).build(), false);
+        add("header/epoch-length", good.as_advanced_builder().epoch(EpochNumberWithFraction::new(e_num, e_idx, e_len + 1)).build(), false);
+        add("header/epoch-number", good.as_advanced_builder().epoch(EpochNumberWithFraction::new(e_num + 1, 0, e_len)).build(), false);
+        add("header/epoch-malformed", good.as_advanced_builder().epoch(EpochNumberWithFraction::new_unchecked(e_num, e_len, e_len)).build(), false);
         add("header/target+1", good.as_advanced_builder().compact_target(good.compact_target() + 1).build(), false);
         // (the version field is not a consensus rule: it carries soft-fork signalling bits) - valid
         add("header/version-bits-set", good.as_advanced_builder().version(1u32).build(), true);
@@ -145,12 +157,12 @@ fn build_contexts(ctx: &Ctx, cons: &Consensus) -> Result<Vec<Context>, String> {
         add("cellbase/none-at-all", good.as_advanced_builder().set_transactions(vec![]).build(), false);
         add("cellbase/second", good_tx.as_advanced_builder().set_transactions(vec![t_far.clone(), cb.clone()]).build(), false);
         add("cellbase/two", good_tx.as_advanced_builder().set_transactions(vec![cb.clone(), cb.clone(), t_far.clone()]).build(), false);
-        add("cellbase/input-number+1", good.as_advanced_builder().set_transactions(vec![cb.as_advanced_builder().set_inputs(vec![CellInput::new_cellbase_input(7)]).build()]).build(), false);
+        add("cellbase/input-number+1", good.as_advanced_builder().set_transactions(vec![cb.as_advanced_builder().set_inputs(vec![CellInput::new_cellbase_input(n_cand + 1)]).build()]).build(), false);
         add("cellbase/witness-not-cellbase-witness", good.as_advanced_builder().set_transactions(vec![cb.as_advanced_builder().set_witnesses(vec![Bytes::from(vec![1u8, 2, 3]).pack()]).build()]).build(), false);
         add("cellbase/no-witness", good.as_advanced_builder().set_transactions(vec![cb.as_advanced_builder().set_witnesses(vec![]).build()]).build(), false);
-        // block 6 finalises block 1: its cellbase has one output
+        // the candidate finalises the block five below it: its cellbase has one output
         if cb.outputs().len() != 1 {
-            return Err("the cellbase of block 6 should pay block 1".into());
+            return Err("the cellbase of the candidate should pay the block five below it".into());
         }
         let o = cb.outputs().get(0).unwrap();
         let cap: u64 = o.capacity().unpack();
@@ -184,16 +196,18 @@ fn build_contexts(ctx: &Ctx, cons: &Consensus) -> Result<Vec<Context>, String> {
         add("proposals/duplicate", good.as_advanced_builder().set_proposals(vec![ids(1)[0].clone(), ids(1)[0].clone()]).build(), false);
         // --- uncles
         let with_uncles = |u: Vec<UncleBlockView>| good.as_advanced_builder().set_uncles(u).build();
-        add("uncles/one", with_uncles(vec![unc(&u5)]), true);
-        add("uncles/older-same-epoch", with_uncles(vec![unc(&u4)]), true);
-        add("uncles/two=max", with_uncles(vec![unc(&u5), unc(&u4)]), true);
+        // an uncle must belong to the candidate's epoch: the sibling k below the candidate does iff the
+        // candidate's index in its epoch is at least k
+        add("uncles/one", with_uncles(vec![unc(&u5)]), e_idx >= 1);
+        add("uncles/older-same-epoch", with_uncles(vec![unc(&u4)]), e_idx >= 2);
+        add("uncles/two=max", with_uncles(vec![unc(&u5), unc(&u4)]), e_idx >= 2);
         add("uncles/three", with_uncles(vec![unc(&u5), unc(&u4), unc(&u5b)]), false);
-        add("uncles/previous-epoch", with_uncles(vec![unc(&u3)]), false);
+        add("uncles/previous-epoch", with_uncles(vec![unc(&u3)]), e_idx >= 3);
         add("uncles/same-twice", with_uncles(vec![unc(&u5), unc(&u5)]), false);
         add("uncles/main-chain-block", with_uncles(vec![unc(&p[3])]), false);
         add("uncles/same-height-as-block", with_uncles(vec![unc(&u6)]), false);
         add("uncles/parent-is-a-fork-block", with_uncles(vec![unc(&u5x)]), false);
-        add("uncles/parent-embedded-before-it", with_uncles(vec![unc(&u4), unc(&u5x)]), true);
+        add("uncles/parent-embedded-before-it", with_uncles(vec![unc(&u4), unc(&u5x)]), e_idx >= 2);
         add("uncles/parent-embedded-after-it", with_uncles(vec![unc(&u5x), unc(&u4)]), false);
         add("uncles/other-target", with_uncles(vec![u5.as_advanced_builder().compact_target(u5.compact_target() + 1).build().as_uncle()]), false);
         let bad_hash_uncle = with_header(&u5, |r| r.proposals_hash(flip(&u5.proposals_hash())));
@@ -211,16 +225,21 @@ fn build_contexts(ctx: &Ctx, cons: &Consensus) -> Result<Vec<Context>, String> {
         {
             let mut q = vec![];
             let mut qp = genesis.clone();
-            for _ in 0..4 {
+            for _ in 0..4 + shift {
                 let b = forge.build_on(&qp, &BlockSpec { miner: 21, ts_offset: 21, ..Default::default() })?;
                 qp = b.hash();
                 q.push(b);
             }
             let keep = ["empty", "commit/farthest-edge", "commit/closest-edge", "uncles/one", "header/timestamp=median", "commit/proposed-in-gap", "extension/wrong-root", "reward/+1"];
             let sub: Vec<Cand> = cands.iter().filter(|c| keep.contains(&c.name.as_str())).map(|c| Cand { name: c.name.clone(), block: c.block.clone(), valid: c.valid }).collect();
-            out.push(Context { name: "tip5-after-detour", chain: p[..5].to_vec(), cands: sub, good: good.clone(), good_child: good_child.clone(), detour: q, detour_after: 3 });
+            let chain: Vec<BlockView> = lead.iter().chain(p[..5].iter()).cloned().collect();
+            out.push(Context { name: ["tip5-after-detour", "tip6-after-detour", "tip7-after-detour", "tip8-after-detour"][shift], chain, cands: sub, good: good.clone(), good_child: good_child.clone(), detour: q, detour_after: 3 + shift });
         }
-        out.push(Context { name: "tip5", chain: p[..5].to_vec(), cands, good, good_child, detour: vec![], detour_after: 0 });
+        let chain: Vec<BlockView> = lead.iter().chain(p[..5].iter()).cloned().collect();
+        out.push(Context { name: ["tip5", "tip6", "tip7-candidate-opens-epoch", "tip8"][shift], chain, cands, good, good_child, detour: vec![], detour_after: 0 });
+    }
+    if shift > 0 {
+        return Ok(out);
     }
     // ------------------------------------------------------------------ context 2: tip p7, candidate = epoch head
     {
@@ -431,9 +450,9 @@ pub fn meta(_tier: Tier) -> Meta {
     Meta {
         id: "C03",
         level: "exploration",
-        rule: "contexts (flat world, 4-block epochs, window 2..4, two uncles max): tip 5 with proposals at every distance 1..5 from the candidate height and sibling / fork blocks at heights 3..6; tip 7 where the candidate opens an epoch; tip 6 that already includes an uncle; tip 5 reached through a detour (p1..p3, a four-block competing branch overtakes, p4 and p5 overtake again, so verified blocks are re-attached before the candidate is judged). Catalogue per context: valid candidates on the boundary of each rule (timestamp median+1 and now+15s, commit at the closest and farthest window edge, two uncles, an uncle whose fork parent is embedded before it, proposals exactly at the limit, 96-byte extension, epoch head, sibling / child of an included uncle) and single-rule violations (number, epoch index / length / number / malformed, target, unknown parent, timestamp = median and now+15s+1ms; cellbase missing / second / twice / wrong input / bad witness; reward +1 / -1 / other lock / split / absent; DAO bit; transactions root, proposals hash, extra hash; extension missing / empty / 31 bytes / wrong root / 97 bytes; proposals over the limit / duplicate; uncles: three, previous epoch, twice, a main-chain block, same height, fork parent not embedded or embedded after, other target, bad proposals hash, included before, of the closing epoch; commit: proposed in the gap, expired, never, in the same block, double spend, duplicate). Every candidate is submitted through HeaderVerifier + parent check + chain service (the submit_block pipeline): valid => Ok(true), tip = candidate, store = replay of the new chain; invalid => error, tip unchanged, store = replay of the old chain. Every invalid candidate is also delivered as a side block under a main chain that is one block ahead, followed by a child and a grandchild: the tip must never leave the main chain, the child that would make the branch canonical is reported failed, the store equals the replay of the main chain.",
+        rule: "contexts (flat world, 4-block epochs, window 2..4, two uncles max); the first context and its detour variant are built with 0..3 leading empty blocks so that the candidate stands at every position of an epoch (heights 6..9; at 8 it opens an epoch and no sibling block is an uncle of its epoch - uncle validity labels follow the rule: the sibling k below the candidate is an uncle candidate iff the candidate's epoch index is at least k): tip 5 with proposals at every distance 1..5 from the candidate height and sibling / fork blocks at heights 3..6; tip 7 where the candidate opens an epoch; tip 6 that already includes an uncle; tip 5 reached through a detour (p1..p3, a four-block competing branch overtakes, p4 and p5 overtake again, so verified blocks are re-attached before the candidate is judged). Catalogue per context: valid candidates on the boundary of each rule (timestamp median+1 and now+15s, commit at the closest and farthest window edge, two uncles, an uncle whose fork parent is embedded before it, proposals exactly at the limit, 96-byte extension, epoch head, sibling / child of an included uncle) and single-rule violations (number, epoch index / length / number / malformed, target, unknown parent, timestamp = median and now+15s+1ms; cellbase missing / second / twice / wrong input / bad witness; reward +1 / -1 / other lock / split / absent; DAO bit; transactions root, proposals hash, extra hash; extension missing / empty / 31 bytes / wrong root / 97 bytes; proposals over the limit / duplicate; uncles: three, previous epoch, twice, a main-chain block, same height, fork parent not embedded or embedded after, other target, bad proposals hash, included before, of the closing epoch; commit: proposed in the gap, expired, never, in the same block, double spend, duplicate). Every candidate is submitted through HeaderVerifier + parent check + chain service (the submit_block pipeline): valid => Ok(true), tip = candidate, store = replay of the new chain; invalid => error, tip unchanged, store = replay of the old chain. Every invalid candidate is also delivered as a side block under a main chain that is one block ahead, followed by a child and a grandchild: the tip must never leave the main chain, the child that would make the branch canonical is reported failed, the store equals the replay of the main chain.",
         assumptions: &["proof of work is the dummy engine in this world (Eaglesong acceptance is C07's subject)", "block size and cycle limits are exercised in C13's worlds, not here", "contexts are designed, not random histories"],
-        bounds: json!({"contexts": 4}),
+        bounds: json!({"contexts": 10, "candidate_heights_of_the_full_catalogue": [6, 7, 8, 9]}),
     }
 }
 
@@ -492,13 +511,16 @@ pub fn run(ctx: &Ctx) -> Report {
         report.outcomes.insert(0);
         report.outcomes.insert(1);
     }
-    let contexts = match build_contexts(ctx, &cons) {
-        Ok(c) => c,
-        Err(e) => {
-            report.machinery_errors.push(e);
-            return report;
+    let mut contexts = vec![];
+    for shift in 0..4usize {
+        match build_contexts(ctx, &cons, shift) {
+            Ok(c) => contexts.extend(c),
+            Err(e) => {
+                report.machinery_errors.push(format!("contexts with {shift} leading blocks: {e}"));
+                return report;
+            }
         }
-    };
+    }
     let total: usize = contexts.iter().map(|c| c.cands.len()).sum();
     report.count("candidates", total as u64);
     report.count("valid_candidates", contexts.iter().map(|c| c.cands.iter().filter(|x| x.valid).count()).sum::<usize>() as u64);
